@@ -374,14 +374,16 @@ class _TextualFinder:
 
     def _get_occurrence_pattern(self, name):
         occurrence_pattern = _TextualFinder.any("occurrence", ["\\b" + name + "\\b"])
+        # the literals first: the prefix of f'..' / b'..' / r'..' must not be
+        # taken for an occurrence of a name spelled f / b / r
         pattern = re.compile(
-            occurrence_pattern
-            + "|"
-            + self.comment_pattern
+            self.comment_pattern
             + "|"
             + self.string_pattern
             + "|"
             + self.f_string_pattern
+            + "|"
+            + occurrence_pattern
         )
         return pattern
 
